@@ -150,7 +150,10 @@ def _na(ctx) -> None:
     for s in fills:
         k += 1
         fo = fill_of(s.value)
-        ok = fo is not None and fo[1] == f.params[1] and fo[0] in ("self", "result")
+        from ..astutil import Defs as _Defs
+        dd = _Defs(f)
+        src_ok = fo is not None and (fo[0] == "self" or all(v is not None and short(v) == "self.copy()" for v in dd.values(fo[0])) and bool(dd.values(fo[0])))
+        ok = fo is not None and fo[1] == f.params[1] and src_ok
         ctx.ob("d.na-triple", f, f"fillna:{k}", ok, "fillna: value if x is None else x over all elements", s,
                message=f"fillna builds `{short(s.value, 70)}`; expected `{f.params[1]} if x is None else x` over every element")
     if k < 2:
